@@ -72,8 +72,10 @@ func Start() *Engine {
 				w.update(ctx, global)
 			case id := <-e.removeWatcher:
 				logrus.Info("Remove watcher")
-				watchers[id].close()
-				delete(watchers, id)
+				if w, has := watchers[id]; has {
+					w.close()
+					delete(watchers, id)
+				}
 			case req := <-e.updateDB:
 				logrus.Info("Update DB")
 				logrus.Infof("-> %#v", req.expr)
